@@ -47,6 +47,11 @@ struct ReaderState {
     pending_pat: Vec<u8>,
     pending_i: usize,
     pending_left: u8,
+    /// inject one transient read error at this read call (0-based, counted over the whole run)
+    error_at: Option<(usize, io::ErrorKind)>,
+    error_injected: bool,
+    /// set when the error has just been returned; cleared by `take_transient`
+    transient_pending: bool,
     // per-operation budget
     op_reads: usize,
     op_budget: usize,
@@ -73,6 +78,9 @@ impl SimReader {
             pending_pat,
             pending_i: 0,
             pending_left,
+            error_at: None,
+            error_injected: false,
+            transient_pending: false,
             op_reads: 0,
             op_budget: 0,
             op_reads_after_end: 0,
@@ -90,6 +98,34 @@ impl SimReader {
 
     pub fn pos(&self) -> usize {
         self.0.borrow().pos
+    }
+
+    pub fn set_error_at(&self, read_index: usize, kind: io::ErrorKind) {
+        self.0.borrow_mut().error_at = Some((read_index, kind));
+    }
+
+    /// Was the error of the last failed call the injected transient one?
+    pub fn take_transient(&self) -> bool {
+        std::mem::take(&mut self.0.borrow_mut().transient_pending)
+    }
+
+    /// `Some(kind)` if this read call is the one that fails.
+    fn transient_now(&self) -> Option<io::ErrorKind> {
+        let mut s = self.0.borrow_mut();
+        if s.error_injected {
+            return None;
+        }
+        if let Some((at, kind)) = s.error_at {
+            if s.stats.reads_total >= at {
+                s.error_injected = true;
+                s.transient_pending = true;
+                s.stats.reads_total += 1;
+                // the failed call still counts against the operation's budget
+                s.op_budget += 1;
+                return Some(kind);
+            }
+        }
+        None
     }
 
     pub fn total_reads(&self) -> usize {
@@ -160,6 +196,9 @@ impl SimReader {
 
 impl Read for SimReader {
     fn read(&mut self, buf: &mut [u8]) -> io::Result<usize> {
+        if let Some(kind) = self.transient_now() {
+            return Err(io::Error::new(kind, "simulated transient read error"));
+        }
         Ok(self.do_read(buf))
     }
 }
@@ -181,6 +220,9 @@ impl AsyncRead for SimReader {
             // next read gets the next pattern entry
             s.pending_i = (s.pending_i + 1) % s.pending_pat.len();
             s.pending_left = s.pending_pat[s.pending_i];
+        }
+        if let Some(kind) = self.transient_now() {
+            return Poll::Ready(Err(io::Error::new(kind, "simulated transient read error")));
         }
         let n = {
             let dst = buf.initialize_unfilled();
@@ -262,6 +304,9 @@ pub struct Outcome {
     pub after: Vec<Terminal>,
     pub reads: usize,
     pub pendings: usize,
+    /// how the call that met the injected transient read error returned, if it did return an error
+    #[serde(default)]
+    pub transient: Option<Terminal>,
 }
 
 impl Outcome {
@@ -300,6 +345,17 @@ pub struct DriveInput<'a> {
     pub flavour: Flavour,
     /// number of extra `receive()` calls after the terminal outcome
     pub extra_receives: usize,
+    /// one transient read error (kind name) at this read call; the driver keeps receiving after it
+    pub error_at: Option<(usize, String)>,
+}
+
+pub fn kind_of(name: &str) -> io::ErrorKind {
+    match name {
+        "Interrupted" => io::ErrorKind::Interrupted,
+        "WouldBlock" => io::ErrorKind::WouldBlock,
+        "TimedOut" => io::ErrorKind::TimedOut,
+        _ => io::ErrorKind::Other,
+    }
 }
 
 fn panic_terminal(payload: Box<dyn std::any::Any + Send>) -> Terminal {
@@ -334,7 +390,11 @@ pub fn drive(input: &DriveInput<'_>) -> Outcome {
         after: Vec::new(),
         reads: 0,
         pendings: 0,
+        transient: None,
     };
+    if let Some((at, kind)) = &input.error_at {
+        handle.set_error_at(*at, kind_of(kind));
+    }
     match input.flavour {
         Flavour::Blocking => drive_blocking(reader, &handle, max_responses, input, &mut out),
         Flavour::Async => drive_async(reader, &handle, max_responses, input, &mut out),
@@ -382,6 +442,12 @@ fn drive_blocking(
                 break;
             }
             Ok(Err(e)) => {
+                if handle.take_transient() {
+                    // the injected transient failure: note how it surfaced and keep receiving,
+                    // as a caller with a read timeout would
+                    out.transient = Some(terminal_of(&e));
+                    continue;
+                }
                 out.terminal = terminal_of(&e);
                 break;
             }
@@ -462,6 +528,10 @@ fn drive_async(
                 break;
             }
             Ok(Ok(Err(e))) => {
+                if handle.take_transient() {
+                    out.transient = Some(terminal_of(&e));
+                    continue;
+                }
                 out.terminal = terminal_of(&e);
                 break;
             }
